@@ -829,11 +829,21 @@ impl Session {
     }
 
     fn spawn_tracker(&mut self) {
+        // Later announces (no candidates left) must not claim that nothing was downloaded yet
+        let downloaded: u64 = self
+            .pieces_status
+            .iter()
+            .enumerate()
+            .filter(|(_, status)| **status == Status::Have)
+            .map(|(index, _)| self.metainfo.piece_length(index) as u64)
+            .sum();
+        let left = self.metainfo.total_length().saturating_sub(downloaded);
         let mut tracker = TrackerClient::new(
             &self.own_id,
             self.metainfo.clone(),
             self.tracker.tx_ch.clone(),
-        );
+        )
+        .with_left(left);
         self.tracker.job = Some(tokio::spawn(async move { tracker.run().await }));
     }
 
